@@ -1,12 +1,10 @@
-import Holpy.C07.Model
+import Holpy.C07.TypeText
 /-
 C07 — the TEXT the printer writes (`print_ast` without a line limit) for the precedence core, and the
 decidable conditions on the terminals of the grammar under which the lexer reads it back token by
 token.  Import-free.
 -/
 namespace Holpy.C07
-
-def wrapT (b : Bool) (cs : List Nat) : List Nat := if b then 40 :: cs ++ [41] else cs
 
 /-- the spelling of operator row `o` exactly as `print_ast` writes it (`op_data.ascii_op` / `unicode_op`) -/
 def Table.spellTxt (T : Table) (uni : Bool) (o : Nat) : List Nat :=
@@ -20,44 +18,35 @@ def kwThen : List Nat := [116, 104, 101, 110]
 def kwElse : List Nat := [101, 108, 115, 101]
 
 /-- `print_ast (get_ast_term t)` with `line_length = None`, as a list of code points -/
-def printText (T : Table) (L : Ladder) (uni : Bool) : Skel → List Nat
+def printText (T : Table) (L : Ladder) (S : List (List Nat)) (uni : Bool) : Skel → List Nat
   | .atom s => s
-  | .app f a => wrapT (brF T f.cls) (printText T L uni f) ++ 32 :: wrapT (brA T a.cls) (printText T L uni a)
-  | .bin o l r => wrapT (brL T o l.cls) (printText T L uni l) ++ 32 :: (T.spellTxt uni o ++ 32 :: wrapT (brR T o r.cls) (printText T L uni r))
-  | .un o a => T.spellTxt uni o ++ wrapT (brU T o a.cls) (printText T L uni a)
-  | .binder b x body => binderTxt T L uni b ++ (x ++ 46 :: 32 :: printText T L uni body)
-  | .ite c a b => kwIf ++ 32 :: (printText T L uni c ++ 32 :: (kwThen ++ 32 :: (printText T L uni a ++ 32 :: (kwElse ++ 32 :: printText T L uni b))))
-
-/-- the trimmed spelling (blanks removed) -/
-def trimC (w : List Nat) : List Nat := w.filter (· ≠ 32)
-
-def idShaped (w : List Nat) : Bool :=
-  match w with
-  | [] => false
-  | c :: cs => isIdStart c && cs.all isIdChar
-
-/-- a symbol that is lexed by the string-terminal branch -/
-def symShaped (w : List Nat) : Bool :=
-  match w with
-  | [] => false
-  | c :: _ => !isWs c && !isIdStart c && !isDigitC c
+  | .app f a => wrapT (brF T f.cls) (printText T L S uni f) ++ 32 :: wrapT (brA T a.cls) (printText T L S uni a)
+  | .bin o l r => wrapT (brL T o l.cls) (printText T L S uni l) ++ 32 :: (T.spellTxt uni o ++ 32 :: wrapT (brR T o r.cls) (printText T L S uni r))
+  | .un o a => T.spellTxt uni o ++ wrapT (brU T o a.cls) (printText T L S uni a)
+  | .binder b x body => binderTxt T L uni b ++ (x ++ 46 :: 32 :: printText T L S uni body)
+  | .ite c a b => kwIf ++ 32 :: (printText T L S uni c ++ 32 :: (kwThen ++ 32 :: (printText T L S uni a ++ 32 :: (kwElse ++ 32 :: printText T L S uni b))))
+  | .ann t ty => 40 :: (printText T L S uni t ++ (58 :: 58 :: (printTyText L.ty S uni ty ++ [41])))
+  | .binderT b x ty body => binderTxt T L uni b ++ (x ++ (58 :: 58 :: (printTyText L.ty S uni ty ++ 46 :: 32 :: printText T L S uni body)))
 
 /-- The printed text with line breaks: `print_ast` with a line width writes, where the unbroken layout has
 a separating blank, that blank followed by more whitespace (newline and indentation) — `sepB path slot`,
 arbitrary — and before `else` an arbitrary nonempty whitespace run `sepF path` (newline + indentation
 instead of the blank).  Nothing else changes: no whitespace inside `. `, after a prefix operator or
 inside brackets.  `path` identifies the position in the term, so every layout of this shape is covered. -/
-def printTextW (T : Table) (L : Ladder) (uni : Bool) (sepB : List Nat → Nat → List Nat) (sepF : List Nat → List Nat) :
+def printTextW (T : Table) (L : Ladder) (S : List (List Nat)) (uni : Bool) (sepB : List Nat → Nat → List Nat) (sepF : List Nat → List Nat) :
     List Nat → Skel → List Nat
   | _, .atom s => s
-  | p, .app f a => wrapT (brF T f.cls) (printTextW T L uni sepB sepF (0 :: p) f) ++
-      32 :: (sepB p 0 ++ wrapT (brA T a.cls) (printTextW T L uni sepB sepF (1 :: p) a))
-  | p, .bin o l r => wrapT (brL T o l.cls) (printTextW T L uni sepB sepF (0 :: p) l) ++
-      32 :: (sepB p 0 ++ (T.spellTxt uni o ++ 32 :: (sepB p 1 ++ wrapT (brR T o r.cls) (printTextW T L uni sepB sepF (1 :: p) r))))
-  | p, .un o a => T.spellTxt uni o ++ wrapT (brU T o a.cls) (printTextW T L uni sepB sepF (0 :: p) a)
-  | p, .binder b x body => binderTxt T L uni b ++ (x ++ 46 :: 32 :: printTextW T L uni sepB sepF (0 :: p) body)
-  | p, .ite c a b => kwIf ++ 32 :: (sepB p 0 ++ (printTextW T L uni sepB sepF (0 :: p) c ++ 32 :: (sepB p 1 ++ (kwThen ++ 32 :: (sepB p 2 ++
-      (printTextW T L uni sepB sepF (1 :: p) a ++ (sepF p ++ (kwElse ++ 32 :: (sepB p 3 ++ printTextW T L uni sepB sepF (2 :: p) b)))))))))
+  | p, .app f a => wrapT (brF T f.cls) (printTextW T L S uni sepB sepF (0 :: p) f) ++
+      32 :: (sepB p 0 ++ wrapT (brA T a.cls) (printTextW T L S uni sepB sepF (1 :: p) a))
+  | p, .bin o l r => wrapT (brL T o l.cls) (printTextW T L S uni sepB sepF (0 :: p) l) ++
+      32 :: (sepB p 0 ++ (T.spellTxt uni o ++ 32 :: (sepB p 1 ++ wrapT (brR T o r.cls) (printTextW T L S uni sepB sepF (1 :: p) r))))
+  | p, .un o a => T.spellTxt uni o ++ wrapT (brU T o a.cls) (printTextW T L S uni sepB sepF (0 :: p) a)
+  | p, .binder b x body => binderTxt T L uni b ++ (x ++ 46 :: 32 :: printTextW T L S uni sepB sepF (0 :: p) body)
+  | p, .ite c a b => kwIf ++ 32 :: (sepB p 0 ++ (printTextW T L S uni sepB sepF (0 :: p) c ++ 32 :: (sepB p 1 ++ (kwThen ++ 32 :: (sepB p 2 ++
+      (printTextW T L S uni sepB sepF (1 :: p) a ++ (sepF p ++ (kwElse ++ 32 :: (sepB p 3 ++ printTextW T L S uni sepB sepF (2 :: p) b)))))))))
+  | p, .ann t ty => 40 :: (printTextW T L S uni sepB sepF (0 :: p) t ++ (58 :: 58 :: (printTyText L.ty S uni ty ++ [41])))
+  | p, .binderT b x ty body => binderTxt T L uni b ++ (x ++ (58 :: 58 :: (printTyText L.ty S uni ty ++
+      46 :: 32 :: printTextW T L S uni sepB sepF (0 :: p) body)))
 
 /-- the inserted characters are whitespace; the run before `else` is not empty -/
 def SepOK (sepB : List Nat → Nat → List Nat) (sepF : List Nat → List Nat) : Prop :=
@@ -75,6 +64,8 @@ def Skel.NamesOK (S : List (List Nat)) : Skel → Prop
   | .un _ a => a.NamesOK S
   | .binder _ x body => (NameOK S x = true ∧ idShaped x = true) ∧ body.NamesOK S
   | .ite c a b => c.NamesOK S ∧ a.NamesOK S ∧ b.NamesOK S
+  | .ann t ty => t.NamesOK S ∧ ty.NamesOK S
+  | .binderT _ x ty body => (NameOK S x = true ∧ idShaped x = true) ∧ ty.NamesOK S ∧ body.NamesOK S
 
 /-! ### how a term text may begin -/
 
@@ -99,10 +90,6 @@ def startsOK (T : Table) : Nat → List Nat → Bool
 def safeBeforeTerm (T : Table) (S : List (List Nat)) (w : List Nat) : Bool :=
   S.all (fun t => !(w.isPrefixOf t) || t == w || !startsOK T t.length (t.drop w.length))
 
-/-- `w` can be followed directly by an identifier -/
-def safeBeforeId (S : List (List Nat)) (w : List Nat) : Bool :=
-  S.all (fun t => !(w.isPrefixOf t) || t == w || !((t.drop w.length).headD 0 |> isIdStart))
-
 /-- spelling `txt` of symbol `id`: its trimmed form is terminal number `id`, it lexes to `.sym id`, and
 its blanks are where the lexer needs them -/
 def spellOK (T : Table) (S : List (List Nat)) (txt : List Nat) (id : Nat) (beforeTerm beforeId : Bool) : Bool :=
@@ -121,7 +108,7 @@ abbrev TextOK (T : Table) (L : Ladder) (S : List (List Nat)) : Prop :=
   S.contains [40] = true ∧ S.contains [41] = true ∧ S.contains [46, 32] = true ∧
   S.contains kwIf = true ∧ S.contains kwThen = true ∧ S.contains kwElse = true ∧
   safeBeforeTerm T S [40] = true ∧
-  (∀ t ∈ S, [41].isPrefixOf t = true → t = [41] ∨ isWs ((t.drop 1).headD 0) = false ∧ (t.drop 1).headD 0 ≠ 41 ∧ (t.drop 1).headD 0 ≠ 44) ∧
+  (∀ t ∈ S, [41].isPrefixOf t = true → t = [41] ∨ isWs ((t.drop 1).headD 0) = false ∧ (t.drop 1).headD 0 ≠ 41 ∧ (t.drop 1).headD 0 ≠ 44 ∧ (t.drop 1).headD 0 ≠ 58 ∧ (t.drop 1).headD 0 ≠ 46) ∧
   (∀ t ∈ S, [46, 32].isPrefixOf t = true → t = [46, 32]) ∧
   (∀ t ∈ S, [46].isPrefixOf t = true → t = [46, 32] ∨ (t.drop 1).headD 0 ≠ 32) ∧
   -- operator spellings
@@ -134,6 +121,9 @@ abbrev TextOK (T : Table) (L : Ladder) (S : List (List Nat)) : Prop :=
   -- binder spellings
   (∀ b < L.binders.length,
       spellOK T S (binderRow T L b).asciiTxt (binderRow T L b).ascii false true = true ∧
-      spellOK T S (binderRow T L b).unicodeTxt (binderRow T L b).unicode false true = true)
+      spellOK T S (binderRow T L b).unicodeTxt (binderRow T L b).unicode false true = true) ∧
+  -- type annotations: the type syntax, and `::` is a terminal read as its own symbol that nothing longer starts with
+  TypeTextOK L.ty S ∧
+  (S.contains [58, 58] = true ∧ tokOfTerminal S [58, 58] = .sym L.dcolon ∧ ∀ t ∈ S, [58, 58].isPrefixOf t = true → t = [58, 58])
 
 end Holpy.C07
